@@ -116,7 +116,11 @@ func ParallelMain(args []string) {
 	start := time.Now()
 	deadline := start.Add(time.Duration(secs) * time.Second)
 	var mu sync.Mutex
-	for time.Now().Before(deadline) && len(rep.Mismatches) == 0 && len(live) > 0 {
+	// at least minRounds rounds even on a loaded machine (bounded by hardStop): what the race detector can
+	// see depends on the two accesses actually being executed by different goroutines
+	minRounds := 24
+	hardStop := start.Add(time.Duration(secs*10+30) * time.Second)
+	for (time.Now().Before(deadline) || (rep.Rounds < minRounds && time.Now().Before(hardStop))) && len(rep.Mismatches) == 0 && len(live) > 0 {
 		rep.Rounds++
 		// each goroutine gets its own seeded slice of jobs; all start together
 		startCh := make(chan struct{})
@@ -180,7 +184,7 @@ func parallelLeg(ctx *kernel.BatchContext) []kernel.Violation {
 	if v, err := strconv.Atoi(os.Getenv("VERIF_C14_PARALLEL_SECS")); err == nil && v > 0 {
 		secs = v
 	}
-	c, cancel := context.WithTimeout(context.Background(), time.Duration(secs+180)*time.Second)
+	c, cancel := context.WithTimeout(context.Background(), time.Duration(secs*10+240)*time.Second)
 	defer cancel()
 	cmd := exec.CommandContext(c, raceBin, "parallel", strconv.FormatInt(ctx.Seed, 10), ctx.Tier, strconv.Itoa(secs))
 	cmd.Env = append(os.Environ(), "GORACE=halt_on_error=1 exitcode=66")
